@@ -14,7 +14,7 @@ def replay(pid, path):
             return PD.REPLAY[pid](path)
     except ImportError:
         pass
-    for modname in ("props_pure", "props_cluster"):
+    for modname in ("props_pure", "props_cluster", "props_conc"):
         try:
             mod = __import__("vlib." + modname, fromlist=["REGISTRY"])
         except ImportError:
